@@ -59,4 +59,19 @@ CLAIMS = {
         text='Decides that each constructor parameter is stored unmodified and forwarded by fit to the parameter of the same meaning, that fit runs counts -> optional trim -> builder on one data flow and stores (C, T, pi) in order, that save and load agree on keys, writer/reader pairs, mapping orientation, >= 17 digits for probabilities and a config covering every constructor parameter, the spectrum rules (descending real part, one permutation, column-0 normalisation, which="LR"), timescales -lag/log(lambda[1:]) with one extra eigenvalue, and rmatvec propagation n_steps-1 times from a copy.',
         note='Not decided: numerical equality of estimator and function pipeline; precision actually surviving Matrix-Market text beyond the digit count. ' + _TB,
         ref='DESIGN.md 5 C16'),
+    'C07': dict(
+        technique='ast store-sequence rule for the absorbing masking, dominance of boundary pins over the solve, top-level-factor rule for lag time, sympy-lifted all-pairs formula, identity-test dispatch lint, alias/effects',
+        text='Decides that _I_m_Q builds I - T fresh and zeroes absorbing columns and rows then sets the absorbing diagonal to one (diagonal last), that the committor right-hand side is pinned before the solve, per-sink columns are summed and sinks pinned to one after the sum, that the MFPT right-hand side is ones with zeros on the sinks set before the solve, that lagtime is a top-level factor once per mode, that the all-pairs table is lag*(diag(Z) - Z)/W with W rows = populations and Z = inv(I - T + W), that the mode is selected by `sinks is None`, that sparse input never reaches len(), and that no argument is modified.',
+        note='Not decided: the first-step equations as numerical identities, range [0, 1], agreement of all-pairs and single-sink values. ' + _TB,
+        ref='DESIGN.md 5 C07'),
+    'C08': dict(
+        technique='factor-role analysis of the flux product (row factors carry the trailing new axis) in dense and sparse branch, store-order rule for the diagonal reset, alias/effects including augmented assignment through returned aliases',
+        text='Decides that both branches scale row i by pi[i]*q-[i] and column j by q+[j], that the diagonal is zeroed after the product and before the return, that net flux is f - f^T of the same f with the negative part removed, that q- = 1 - q+ from one committor call with the arguments in order, that reactive populations are pi*q+*q- normalised by their own sum, that no store or in-place operator reaches tprob or the caller\'s populations (also through the helper\'s returned alias), plus the committor boundary pins.',
+        note='Not decided: conservation of net flux, zero inflow to sources, equality of total in/out flow (global numerical identities). ' + _TB,
+        ref='DESIGN.md 5 C08'),
+    'C17': dict(
+        technique='ast structural rules on the widest-path search (frontier pop, strict-positive neighbour test, clip, strict-improvement update set, paired stores), write-through rule for the subtraction scheme, loop-order rule, alias/effects',
+        text='Decides that the caller\'s flux matrix is never written, that the frontier pop is argmax over min_fluxes[queue], neighbours are the strictly positive row entries, the relaxation is min(edge, upstream), updates are strict improvements written together to bottleneck and predecessor, the reported flux is the bottleneck at the argmax sink, the subtract scheme writes through to the working copy on the consecutive path edges and zeroes the bottleneck, names map to schemes, and paths() records, tests (>= on both limits, or), then replaces the working copy.',
+        note='Not decided: optimality of the widest path over all paths, monotone path fluxes, total <= outflow as numbers. ' + _TB,
+        ref='DESIGN.md 5 C17'),
 }
